@@ -1,0 +1,36 @@
+//go:build verif
+
+// Hooks and read-only accessors for the verification harness.
+// Only compiled with `-tags verif`; see verif_off.go for the default.
+
+package evalfilter
+
+import (
+	"github.com/skx/evalfilter/v2/code"
+	"github.com/skx/evalfilter/v2/environment"
+	"github.com/skx/evalfilter/v2/object"
+	"github.com/skx/evalfilter/v2/vm"
+)
+
+// VerifLockHook, when set, is called with "lock" once the evaluator's mutex
+// is held and with "unlock" just before it is released.
+var VerifLockHook func(e *Eval, ev string)
+
+func verifLock(e *Eval, ev string) {
+	if h := VerifLockHook; h != nil {
+		h(e, ev)
+	}
+}
+
+// VerifMachine returns the virtual machine Prepare created (nil before that).
+func (e *Eval) VerifMachine() *vm.VM { return e.machine }
+
+// VerifEnvironment returns the environment.
+func (e *Eval) VerifEnvironment() *environment.Environment { return e.environment }
+
+// VerifCompiled returns what the compiler produced: the main program (which
+// the optimizer may since have rewritten in place), the constants and the
+// functions, before optimisation.
+func (e *Eval) VerifCompiled() (code.Instructions, []object.Object, map[string]environment.UserFunction) {
+	return e.instructions, e.constants, e.functions
+}
